@@ -432,7 +432,7 @@ func genHandlerCase(g *prng.R) c03Case {
 func init() {
 	checks["c03"] = func(id string) int {
 		r := newRun(id, "exploration")
-		r.Rule = "every outbox-acceptable activity type and bare object type with seeded mixtures of to/bto/cc/bcc/audience (IRIs or embedded actors) on the activity and on 1..3 embedded objects, x {Social, Federating, both} x {client POST, Send, automatic Accept, automatic Reject}, recipients with application-stored inboxes or unreachable, senders without inbox, activities without object and with embedded objects of several kinds; a quarter of the accepted posts is followed by handler GETs of what the library stored; plus stored values of every type with bto/bcc at 'object' depth 0..9 (IRIs and Links anywhere in the lists) served by the GET handler; every payload handed to the transport and every handler body is parsed and walked through 'object'; non-trivial = the input carried bto/bcc and a payload or body was observed; distinct by scenario"
+		r.Rule = "every outbox-acceptable activity type and bare object type with seeded mixtures of to/bto/cc/bcc/audience (IRIs or embedded actors) on the activity and on 1..3 embedded objects, x {Social, Federating, both} x {client POST, Send, automatic Accept, automatic Reject}, recipients with application-stored inboxes or unreachable, senders without inbox, activities without object and with embedded objects of several kinds; a quarter of the accepted posts is followed by handler GETs of what the library stored; plus stored values of every type with bto/bcc at 'object' depth 0..9 (IRIs and Links anywhere in the lists) served by the GET handler; every payload handed to the transport and every handler body is parsed and walked through 'object'; embedded values the typed removal cannot see into (unknown type, no type, Link / Mention, an object member on intransitive types), also inside arrays; non-trivial = the input carried bto/bcc and a payload or body was observed; distinct by scenario"
 		r.Assumptions = []string{"hidden-recipient coverage is demanded for the activity's own bto/bcc, a wrapped bare object's, and (Social enabled) a Create's embedded objects'", "the peer's bto/bcc on a received Follow are not ours to deliver to"}
 		judge := func(cs c03Case) {
 			sc := cs.Sc
